@@ -160,7 +160,10 @@ def bam_case(args):
         for fi in order:
             if fi not in files:
                 continue
-            p = os.path.join(d, "part%d.bam" % fi)
+            # the files of one experiment lie in different folders and, for every second partition, share their base name
+            same_name = (sum(assign) + len(order)) % 2 == 0
+            os.makedirs(os.path.join(d, "lane%d" % fi), exist_ok=True)
+            p = os.path.join(d, "lane%d" % fi, "reads.bam" if same_name else "part%d.bam" % fi)
             syn.write_bam(w, p, reads=files[fi], seqs=seqs)
             bams.append(p)
         out = os.path.join(d, "out")
